@@ -1137,7 +1137,7 @@ def param_binders(ps):
     out = []
     for p in ps:
         out.append(p["name"])
-        if p["ty"][0] == "arr":
+        if p["ty"][0] in ("arr", "range", "slice"):
             out.extend(p["dims"])
     return out
 
@@ -1150,7 +1150,7 @@ def rn_func(nu, bs, f):
         q = dict(p)
         q["name"] = nu(p["name"], len(bs2)); bs2.append(p["name"])
         nd = []
-        if p["ty"][0] == "arr":
+        if p["ty"][0] in ("arr", "range", "slice"):
             for dn in p["dims"]:
                 nd.append(nu(dn, len(bs2))); bs2.append(dn)
         q["dims"] = nd
@@ -1229,6 +1229,10 @@ def rn_expr(nu, bs, e):
         return ["match", R(e[1]), [rn_guard(nu, bs, g) for g in e[2]]]
     if t == "iflet":
         return ["iflet", rn_guard(nu, bs, e[1]), R(e[2]), None if e[3] is None else R(e[3])]
+    if t == "range":
+        return ["range", [R(a) for a in e[1]]]
+    if t == "slice":
+        return ["slice", R(e[1]), [R(a) for a in e[2]]]
     if t == "listcomp":
         bs2 = list(bs); qs = []
         for q in e[3]:
